@@ -54,24 +54,27 @@ theorem decodeRaw_eq (pr : Params) (dictBuf : Nat) (preset : Array Nat) (size : 
        let fuel := (match size with | some n => n + 1 | none => cap + 1)
        let ps0 : Probs := Array.replicate (numProbs pr.lc pr.lp) PROB_INIT
        let r := (loopProg pr dictBuf fuel size Coder.init presetUsed [] 0).decRun ps0 d0
-       let d := r.2.2.normalize
-       let out := r.1.hist.extract presetUsed.size r.1.hist.size
-       let consumed := (b0 :: tl).length - d.inp.length
-       if d.over > 0 then .err .eof
-       else match r.1.stop with
-         | .limit => .ok out consumed r.1.parse.reverse
-         | .endMarker => (match size with
-             | none => .ok out consumed r.1.parse.reverse
-             | some _ => .err .other)
-         | .distOverflow => .err .other
-         | .overrun => .err .invalidData
-         | .fuel => .capped) := by
+       rawFinish presetUsed.size size (b0 :: tl).length r.1 r.2.2) := by
   subst hb
   simp only [decodeRaw, hinit, ne_eq, not_true_eq_false, if_false]
   generalize (loopProg pr dictBuf (match size with | some n => n + 1 | none => cap + 1) size Coder.init
     (presetUsedOf preset dictBuf) [] 0).decRun (Array.replicate (numProbs pr.lc pr.lp) PROB_INIT) d0 = t
   obtain ⟨r, ps, d⟩ := t
   rfl
+
+/-- `rawFinish` when the loop stopped at the declared size and the final normalisation misses no byte -/
+theorem rawFinish_limit (presetSize : Nat) (size : Option Nat) (len : Nat) (r : LoopRes) (d : Dec)
+    (hs : r.stop = .limit) (ho : d.normalize.over = 0) :
+    rawFinish presetSize size len r d
+      = .ok (r.hist.extract presetSize r.hist.size) (len - d.normalize.inp.length) r.parse.reverse := by
+  simp only [rawFinish, hs, Stop.isRepeatErr, Bool.false_eq_true, if_false, ho, Nat.lt_irrefl]
+
+/-- `rawFinish` when the loop stopped at the end marker of a stream without declared size -/
+theorem rawFinish_marker (presetSize : Nat) (len : Nat) (r : LoopRes) (d : Dec)
+    (hs : r.stop = .endMarker) (ho : d.over = 0) (hon : d.normalize.over = 0) :
+    rawFinish presetSize none len r d
+      = .ok (r.hist.extract presetSize r.hist.size) (len - d.normalize.inp.length) r.parse.reverse := by
+  simp only [rawFinish, hs, Stop.isRepeatErr, if_true, ho, hon, Nat.lt_irrefl, if_false]
 
 /-- **LZMA round trip, declared size.** -/
 theorem lzma_roundtrip_size (pr : Params) (dictBuf : Nat) (preset : Array Nat) (parse : List Sym) (n : Nat)
@@ -110,8 +113,9 @@ theorem lzma_roundtrip_size (pr : Params) (dictBuf : Nat) (preset : Array Nat) (
         omega
     rw [hbt] at hinit ⊢
     rw [decodeRaw_eq pr dictBuf preset (some n) b0 tl cap d0 hb0 hinit, hpu]
-    simp only [hdec, hinp, hover, Nat.lt_irrefl, if_false, List.reverse_append, List.reverse_nil,
-      List.append_nil, List.reverse_reverse]
+    simp only [hdec]
+    rw [rawFinish_limit _ _ _ _ _ rfl hover]
+    simp only [hinp, List.reverse_reverse]
     have : (b0 :: tl).length - rest.length = e'.bytes.length := by
       rw [← hbt, List.length_append]; omega
     rw [this]
@@ -129,7 +133,7 @@ theorem lzma_roundtrip_marker (pr : Params) (dictBuf : Nat) (hd : dictBuf ≤ EN
   simp only [List.append_nil, Nat.zero_add] at hrun
   obtain ⟨ps', e', henc⟩ := Prog.runBits_encRun _ _
     (Array.replicate (numProbs pr.lc pr.lp) PROB_INIT) Enc.init _ _ hrun
-  obtain ⟨d0, d', hinit, hdec, hinp, hover, _, hhead, _, _, hlen5⟩ :=
+  obtain ⟨d0, d', hinit, hdec, hinp, hover, hover0, hhead, _, _, hlen5⟩ :=
     rc_roundtrip _ _ _ (probsOk_fresh pr) _ _ _ henc rest
   refine ⟨e'.bytes, ?_, ?_⟩
   · simp only [encodeParse, henc]
@@ -147,8 +151,9 @@ theorem lzma_roundtrip_marker (pr : Params) (dictBuf : Nat) (hd : dictBuf ≤ EN
         omega
     rw [hbt] at hinit ⊢
     rw [decodeRaw_eq pr dictBuf preset none b0 tl cap d0 hb0 hinit, hpu]
-    simp only [hdec, hinp, hover, Nat.lt_irrefl, if_false, List.reverse_cons, List.reverse_append,
-      List.reverse_nil, List.append_nil, List.reverse_reverse, List.nil_append]
+    simp only [hdec]
+    rw [rawFinish_marker _ _ _ _ rfl hover0 hover]
+    simp only [hinp, List.reverse_cons, List.reverse_reverse]
     have : (b0 :: tl).length - rest.length = e'.bytes.length := by
       rw [← hbt, List.length_append]; omega
     rw [this]
